@@ -211,10 +211,20 @@ def model_octets(kind, cfg, p):
     return C.ref_octets(kind, cfg, q)
 
 
+def _len_before_pack(obj):
+    """The lengths an object reports before it is asked to pack (a setter must have left them right; pack() is not a repair step)."""
+    try:
+        c = copy.deepcopy(obj)
+        return c.packet_len, c.pdu_header.pdu_data_field_len, c.pdu_header.header_len
+    except Exception as e:  # noqa: BLE001
+        return repr(e)
+
+
 def check_state(ctx, label, kind, obj, fresh_fn, case, hdr_len, feat, model_fn=None):
     """All per-step checks on a deep copy (packing fills caches the property is about)."""
     snap = copy.deepcopy(obj)
     probe = copy.deepcopy(obj)
+    okb, before = attempt(lambda: (probe.packet_len, probe.pdu_header.pdu_data_field_len))      # what the object reports before it is asked to pack
     ok, raw = attempt(probe.pack)
     okf, want = attempt(lambda: bytes(fresh_fn().pack()))
     if not ok or not okf:
@@ -225,6 +235,8 @@ def check_state(ctx, label, kind, obj, fresh_fn, case, hdr_len, feat, model_fn=N
     raw = bytes(raw)
     plen = probe.packet_len
     good = ctx.check("history.length", len(raw) == plen, "reported_length_differs_from_packed", f"{feat}/{label}", case, reported=plen, packed=len(raw))
+    good &= ctx.check("history.length", okb and before == (len(raw), len(raw) - hdr_len(raw)), "length_reported_before_packing_differs_from_packed", f"{feat}/{label}", case,
+                      reported=repr(before), packed=len(raw))
     declared = int.from_bytes(raw[1:3], "big")
     good &= ctx.check("history.length_field", declared == len(raw) - hdr_len(raw), "length_field_wrong", f"{feat}/{label}", case,
                       field=declared, octets_after_header=len(raw) - hdr_len(raw))
@@ -336,7 +348,11 @@ def _make_inputs(kind, cfg, p):
         return [bytes.fromhex(p["checksum"]), None if p["fault_id"] is None else X.EntityIdTlv(bytes.fromhex(p["fault_id"]))]
     if kind == "finished":
         fl = None if p["fault_id"] is None else X.EntityIdTlv(bytes.fromhex(p["fault_id"]))
-        return [X.FinishedParams(d.ConditionCode(p["cond"]), d.DeliveryCode(p["delivery"]), d.FileStatus(p["status"]), [C.mk_response(r) for r in p["responses"]], fl)]
+        # "no filestore responses" handed over as an empty list or as None (both accepted by the constructor)
+        resp = [C.mk_response(r) for r in p["responses"]]
+        if not resp and (p["cond"] + p["status"]) % 2:
+            resp = None
+        return [X.FinishedParams(d.ConditionCode(p["cond"]), d.DeliveryCode(p["delivery"]), d.FileStatus(p["status"]), resp, fl)]
     if kind == "metadata":
         return [X.MetadataParams(bool(p["closure"]), d.ChecksumType(p["cksum_type"]), p["size"], p["src_name"], p["dst_name"]),
                 None if p["options"] is None else [C.mk_option(o) for o in p["options"]]]
@@ -521,7 +537,21 @@ def k_uslp_history(ctx, seed, nsteps):
     if not state("after_construct", -1):
         return
     for i in range(nsteps):
-        fr.tfdf.tfdz = rand_bytes(r, r.choice((0, 1, 2, 17, 300)))
+        how = r.choice(("new_bytes", "new_bytes", "new_bytearray", "same_object_changed_in_place"))
+        if how == "same_object_changed_in_place" and isinstance(fr.tfdf.tfdz, bytearray):
+            # the caller's own mutable data zone, extended or cut in place and assigned again to refresh the object
+            z = fr.tfdf.tfdz
+            if r.random() < 0.5 or not z:
+                z.extend(rand_bytes(r, r.randrange(1, 9)))
+            else:
+                del z[len(z) // 2:]
+            fr.tfdf.tfdz = z
+        elif how == "new_bytearray":
+            fr.tfdf.tfdz = bytearray(rand_bytes(r, r.choice((0, 1, 2, 17, 300))))
+        else:
+            how = "new_bytes"
+            fr.tfdf.tfdz = rand_bytes(r, r.choice((0, 1, 2, 17, 300)))
+        ctx.table("uslp_tfdz_assignment", how)
         ctx.table("setter_cells", "uslp.tfdz")
         if not state("after:tfdz", i):
             return
